@@ -193,6 +193,10 @@ def run_input(ctx, i):
         except aa.exc.InversionException:
             ctx.skipped["baseline:InversionException"] += 1
             continue
+        except Exception as e:
+            # a well-formed input whose fresh inversion raises anything but the documented InversionException
+            ctx.check(False, "formalism.values", via="fresh %s inversion raised" % tagf, exception=repr(e)[:300], **W0)
+            continue
         per_formalism[tagf] = ref
         reg_idx = np.concatenate([np.arange(a, b) for (a, b), d in zip(_ranges(objs), desc) if d["regularized"]]).astype(int)
         A = (ref["F"] + ref["H"])[np.ix_(reg_idx, reg_idx)]
